@@ -1,5 +1,5 @@
 """C11 — RadioTap fields can be set in any order and read back."""
-import itertools, os, random, sys
+import glob, itertools, os, random, sys
 from vlib import core, corr
 
 sys.path.insert(0, os.path.join(core.VERIF, "translator"))
@@ -10,23 +10,42 @@ MODULES = ["TinsModel.Props.C11", "TinsModel.Props.Limits.C11"]   # + the consta
 AUDIT = ["Audit/C11.lean", "Audit/LimitsC11.lean"]
 LEVEL = "proof"
 MANIFEST = dict(
-    text="Lean 4 theorems over a code-shaped executable model of RadioTapParser, RadioTapWriter::write_option "
-         "(build_padding_vector, update_paddings) and the RadioTap constructors/setters/getters: for every finite "
-         "sequence of field writes (any order, repetitions) from the default header or from any parsed header the "
-         "decidable test decodeCanonical accepts, the options payload is the canonical layout of the last-write map "
-         "(write_canonical, setters_any_order, setters_any_order_parsed), lookups return the last write or "
-         "field_not_present, present() is the domain, trailer_size follows the FCS flag, and serialisation writes "
-         "exactly header+payload with a covering length field and re-parses to the same state (serialize_reparse). "
-         "The field table and the setter/getter field+width tables are regenerated from the source on every run and "
-         "the table theorems re-decided; model, implementation (ASan/UBSan) and the executable spec oracle are compared "
-         "on exhaustive small-scope and random setter histories, canonical and malformed parsed headers and "
+    text="Lean 4 theorems over a code-shaped executable model of RadioTapParser (a fault-explicit version in which "
+         "every raw read is bounds-tested, proved equal to the total one), RadioTapWriter::write_option "
+         "(build_padding_vector, update_paddings) and the RadioTap constructors/setters/getters/serializer. "
+         "(1) Parser: for every byte string the constructor, advance_field, skip_to_field, has_field, current_option and "
+         "present() never read outside the buffer or the field table, terminate within explicit fuel, and throw only "
+         "malformed_packet (parser_ctor_safe, parser_ops_safe, parser_walk_total, present_safe). (2) Setters: from every "
+         "reachable object (default, parsed from any accepted bytes, written) every sequence of add_option calls with any "
+         "field and value length never faults (write_option_safe, setters_never_fault, observers_never_fault); for every "
+         "finite sequence of valid writes from the default header, a canonical parsed header, or any parsed header the "
+         "decidable test decodeLayout accepts (chain of present words, later words empty / namespace bits / unknown "
+         "bits, foreign trailing bytes) the payload is the well-aligned layout of the last-write map inside the unchanged "
+         "frame, getters return the last write or field_not_present, present() has the domain as table bits "
+         "(setters_any_order, setters_any_order_layout, setters_any_order_parsed_layout, getter_last_write_layout, "
+         "setter_frame_partial); when the last present word announces table fields the chain and the first word's "
+         "fields are still right and read back, only the bytes behind them are re-padded (write_layout_live, "
+         "setters_any_order_live, setter_frame_live), and when those bytes are the well-aligned fields of the last word "
+         "(decodeLayout2: e.g. two radiotap namespaces as the standard lays them out) they are re-aligned with their "
+         "values and every getter returns the first word's value, else the last word's (write_two_words, "
+         "getter_two_words, setters_two_words); the full frame statement SetterFrameAll is refuted on a "
+         "vendor-namespace witness (setter_frame_fails, KF-C11-6, replayed on the real code on every run). "
+         "(3) Serialization: length_covers for every object; serialize_reparse_any: for every payload the parser accepts "
+         "the re-parsed object has the same version, pad and payload and the inner frame gets exactly its bytes. "
+         "The field table, PresentFlags and the setter/getter field+width tables are regenerated from the source on every "
+         "run and the table theorems re-decided; model, implementation (ASan/UBSan) and the executable spec oracle are "
+         "compared on exhaustive small-scope and random setter histories, canonical / multi-word / vendor / truncated / "
+         "noise headers followed by setter sequences, raw RadioTapParser walks over damaged option buffers, and "
          "serialize/re-parse round trips.",
     note="Trusted: Lean kernel + standard axioms; hand-written model tied by correspondence "
          "(harness/c11_radiotap.cpp); translator/gen_radiotap.py (regex over the three source files); FCS value "
-         "checked against an independent CRC-32 in the harness; inner 802.11 frames are opaque bytes. Multi-namespace / "
-         "vendor / truncated parsed headers are modelled and compared but not covered by the theorems.",
-    technique="Lean 4 proof (induction over field lists, padding-vector invariant for update_paddings) + "
-              "model/impl correspondence + spec oracle",
+         "checked against an independent CRC-32 in the harness; inner 802.11 frames are opaque bytes. Well-aligned = "
+         "zero padding bytes; headers with non-zero padding, misaligned or truncated fields are covered by the safety "
+         "theorems and the any-payload serialization theorem only. Known finding KF-C11-6: setters re-pad vendor / "
+         "unknown-namespace bytes behind the first present word's fields when the last present word has table bits.",
+    technique="Lean 4 proof (induction over field lists, padding-vector invariants for update_paddings, validated-chain "
+              "invariant and progress measure for the parser, refinement checked=total) + model/impl correspondence + "
+              "spec oracle written from the radiotap standard",
     design="DESIGN.md §6 C11")
 MANIFEST["note"] += (" Constants and limits of the C++ source that the model restates (translator/gen_limits.py -> Gen/Limits.lean: "
                      "compiled probe + preprocessed function bodies at named anchors) are tied to the model's numerals by the "
@@ -39,7 +58,7 @@ SETTERS = {"tsft": 0, "flags": 1, "rate": 2, "channel": 3, "dbm_signal": 5, "dbm
            "antenna": 11, "db_signal": 12, "rx_flags": 14, "tx_flags": 15, "data_retries": 17, "xchannel": 18, "mcs": 19}
 NAMES = list(SETTERS)
 UNSET_IN_DEFAULT = ["rate", "dbm_noise", "signal_quality", "db_signal", "tx_flags", "data_retries", "xchannel", "mcs"]
-CASE_START = ("new", "parse")
+CASE_START = ("new", "parse", "walk", "skipto")
 # valid 802.11 frames that libtins parses and re-serialises byte for byte
 INNER = ["0800" + "00" * 22,
          "0841" + "2c00" + "112233445566" + "aabbccddeeff" + "010203040506" + "1000" + "deadbeef",
@@ -170,6 +189,150 @@ def mutated_case(rng):
     return ops
 
 
+def enc_fields(m, at):
+    """the fields of one present word laid out from payload offset `at` (alignment counted from the header start)"""
+    out = bytearray()
+    for b in sorted(m):
+        while (at + len(out) + 4) % META[b][1]:
+            out.append(0)
+        out += m[b]
+    return bytes(out)
+
+
+def rand_fields(rng, p=None):
+    p = rng.choice([0.1, 0.3, 0.6]) if p is None else p
+    m = {b: rand_value(rng, b) for b in range(22) if rng.random() < p}
+    if 1 in m:
+        m[1] = bytes([m[1][0] & 0xbf])
+    return m
+
+
+def build_options(rng, shape=None):
+    """an options buffer with a chain of 1..4 present words.  shape: 'inert' = the later words announce no field
+    libtins knows (empty, unknown bits, namespace bits only), 'live' = the last word carries known field bits and the
+    fields follow those of the first word, None = either.  Returns (bytes, description)."""
+    shape = shape or rng.choice(["inert", "inert", "live"])
+    k = rng.choice([0, 0, 1, 1, 1, 2, 3])
+    m0 = rand_fields(rng)
+    if rng.random() < 0.1:
+        m0 = {}
+    w0 = sum(1 << b for b in m0)
+    if rng.random() < 0.2:
+        w0 |= rng.getrandbits(7) << 22                       # fields this parser has no table entry for
+    words = [w0]
+    mk = {}
+    for i in range(k):
+        words[-1] |= 1 << 31
+        r = rng.random()
+        if r < 0.45:
+            words[-1] |= 1 << 29                              # next word: radiotap namespace
+        elif r < 0.75:
+            words[-1] |= 1 << 30                              # next word: vendor namespace
+        if i == k - 1:
+            if shape == "live":
+                mk = rand_fields(rng, 0.25) or {11: b"\x07"}
+                w = sum(1 << b for b in mk) | (rng.getrandbits(7) << 22 if rng.random() < 0.2 else 0)
+            else:
+                w = rng.choice([0, 0, rng.getrandbits(7) << 22, 1 << 29, 1 << 30, rng.getrandbits(9) << 22])
+                w &= ~(1 << 31)
+        else:
+            w = rng.choice([0, 0, rng.getrandbits(22), rng.getrandbits(31)])
+        words.append(w)
+    pl = b"".join(w.to_bytes(4, "little") for w in words)
+    pl += enc_fields(m0, len(pl))
+    pl += enc_fields(mk, len(pl))
+    pl += bytes(rng.randrange(256) for _ in range(rng.choice([0, 0, 0, 1, 2, 3, 6, 9])))
+    return pl, dict(k=k, shape=shape, m0=m0, mk=mk)
+
+
+def damaged_options(rng):
+    """options buffers as they arrive from the wire: built ones, truncated anywhere, with flipped bits, with a chain
+    that leaves the buffer, pure noise"""
+    r = rng.random()
+    pl, _ = build_options(rng)
+    pl = bytearray(pl)
+    if r < 0.3:
+        return bytes(pl)
+    if r < 0.55:
+        return bytes(pl[:rng.randint(0, len(pl))])             # truncation anywhere (also inside the present words)
+    if r < 0.7:
+        for _ in range(rng.randint(1, 3)):
+            i = rng.randrange(len(pl))
+            pl[i] ^= 1 << rng.randrange(8)
+        return bytes(pl)
+    if r < 0.8:
+        n = rng.choice([1, 2, 3, 8])
+        return b"".join((rng.getrandbits(31) | (1 << 31)).to_bytes(4, "little") for _ in range(n))   # chain never ends
+    if r < 0.9:
+        w = int.from_bytes(pl[:4], "little") | rng.getrandbits(32)
+        pl[:4] = w.to_bytes(4, "little")
+        return bytes(pl)
+    return bytes(rng.randrange(256) for _ in range(rng.choice([0, 1, 3, 4, 5, 7, 8, 12, 16, 33])))
+
+
+def parser_case(rng):
+    pl = damaged_options(rng)
+    if rng.random() < 0.7:
+        return [f"walk {hexs(pl)}"]
+    return [f"skipto {rng.randrange(22)} {hexs(pl)}"]
+
+
+def layout_case(rng, maxlen=12):
+    """a parsed header with a chain of present words (later words empty / other namespaces / unknown bits, or live),
+    then setters, add_option and serialize+reparse"""
+    pl, d = build_options(rng)
+    r = rng.random()
+    if r < 0.15 and len(pl) > 4:
+        pl = pl[:rng.randint(4, len(pl) - 1)]
+    ops = ["parse " + hexs(header(pl, version=rng.choice([0, 0, 1, 255]), pad=rng.choice([0, 0, 7])))]
+    for _ in range(rng.choice([1, 2, 3, 5, rng.randint(1, maxlen)])):
+        r = rng.random()
+        if r < 0.7:
+            ops.append(set_op(rng, rng.choice(NAMES)))
+        elif r < 0.8:
+            b = rng.randrange(20)
+            ops.append(f"add {b} {hexs(rand_value(rng, b))}")
+        else:
+            ops.append("ser " + rng.choice(INNER + ["-"]))
+    if rng.random() < 0.5:
+        ops.append("ser " + rng.choice(INNER))
+    return ops
+
+
+def two_ns_case(rng, maxlen=10):
+    """a parsed header with two radiotap namespaces as the standard lays them out (bit 31 + bit 29 in the first present
+    word, the second word's fields behind the first's, optional trailing bytes), then setters / add_option / serialize"""
+    m0 = rand_fields(rng, rng.choice([0.15, 0.3, 0.5])) or {3: bytes([0x6c, 0x09, 0xa0, 0x00])}
+    mk = rand_fields(rng, rng.choice([0.1, 0.25, 0.4]))
+    w0 = sum(1 << b for b in m0) | (1 << 31) | (1 << 29)
+    w1 = sum(1 << b for b in mk)
+    pl = w0.to_bytes(4, "little") + w1.to_bytes(4, "little")
+    pl += enc_fields(m0, len(pl))
+    pl += enc_fields(mk, len(pl))
+    pl += bytes(rng.randrange(256) for _ in range(rng.choice([0, 0, 0, 2, 5])))
+    ops = ["parse " + hexs(header(pl, version=rng.choice([0, 0, 3]), pad=rng.choice([0, 0, 9])))]
+    for _ in range(rng.choice([1, 2, 3, 5, rng.randint(1, maxlen)])):
+        r = rng.random()
+        if r < 0.75:
+            ops.append(set_op(rng, rng.choice(NAMES)))
+        elif r < 0.85:
+            b = rng.randrange(20)
+            ops.append(f"add {b} {hexs(rand_value(rng, b))}")
+        else:
+            ops.append("ser " + rng.choice(INNER + ["-"]))
+    return ops
+
+
+def corpus_cases():
+    """minimised replays of the findings of this property (known_findings.d/C11.jsonl); run first on every run — the
+    known finding KF-C11-6 is reported because it is observed, the fixed ones must stay quiet"""
+    out = []
+    for f in sorted(glob.glob(os.path.join(core.VERIF, "corpus", "C11", "*.ops"))):
+        ops = [l.rstrip("\n") for l in open(f) if l.strip() and not l.startswith("#")]
+        out += corr.split_cases(ops, CASE_START)
+    return out
+
+
 def classify(op, impl):
     w = op.split(" ")
     tag = w[0]
@@ -224,6 +387,7 @@ def run(chk):
 
     quick = chk.tier == "quick"
     go([["tail"]])
+    go(corpus_cases())
     ex = exhaustive_cases(chk.tier, rng)
     chk.extra["exhaustive_cases"] = len(ex)
     go_all(ex[:200], 200)
@@ -236,30 +400,69 @@ def run(chk):
     mc = [mutated_case(rng) for _ in range(nmut)]
     go_all(mc[:300], 300)
     go_all(mc[300:], 2000)
+    npar = 4000 if quick else 80000
+    pc = [parser_case(rng) for _ in range(npar)]
+    go_all(pc[:300], 300)
+    go_all(pc[300:], 4000)
+    nlay = 2500 if quick else 50000
+    lc = [layout_case(rng) for _ in range(nlay)]
+    go_all(lc[:300], 300)
+    go_all(lc[300:], 3000)
+    ntwo = 1200 if quick else 25000
+    tc = [two_ns_case(rng) for _ in range(ntwo)]
+    go_all(tc[:300], 300)
+    go_all(tc[300:], 3000)
+    # how often the oracle commits itself: verdicts over a sample of each generator's cases
+    verdicts = {}
+    for name, sample in (("random", rc[:150]), ("mutated", mc[:150]), ("parser", pc[:300]), ("layout", lc[:200]), ("two_ns", tc[:150])):
+        ops = [l for c in sample for l in c]
+        _, _, spec, _ = corr.evaluate(AREA, exe, ops, CASE_START)
+        cnt = {}
+        for o, v in zip(ops, spec or []):
+            k = o.split(" ", 1)[0] + ":" + v.split(" ", 1)[0]
+            cnt[k] = cnt.get(k, 0) + 1
+        verdicts[name] = dict(sorted(cnt.items()))
+    chk.extra["oracle_verdicts_sample"] = verdicts
     for p in problems:
         # a theorem / generated table no longer checks: the run above was the search for a concrete failing input
         if not (stats.get("spec", 0) + stats.get("fault", 0)):
             chk.violation("proof obligation no longer checks: " + p[:1500], ["theorem-or-audit-failure", p[:4000]], nofail=True)
     chk.cov["rule"] = ("cases = start state (default header | parsed canonical header over a subset of the 22 known "
-                       "fields | parsed malformed header) followed by setter / add_option / serialize+reparse ops; "
-                       "after every op the full observable state (payload, present, sizes, all 19 getter results) is "
-                       "compared; distinct_nontrivial counts distinct (operation, implementation result) pairs")
+                       "fields | parsed header with a chain of 1..4 present words, inert or live foreign bytes, radiotap / "
+                       "vendor / unknown namespace bits, unknown field bits | parsed malformed header: truncated, "
+                       "misaligned, wrong length, noise) followed by setter / add_option / serialize+reparse ops; after "
+                       "every op the full observable state (payload, present, sizes, all 19 getter results) is compared; "
+                       "raw RadioTapParser cases = walk / skip_to_field over built, truncated, bit-flipped, never-ending "
+                       "and random option buffers, every reported field, current_option, namespace index/type and "
+                       "has_field of all 32 flags compared; distinct_nontrivial counts distinct (operation, "
+                       "implementation result) pairs; oracle_verdicts_sample = spec verdicts per generator")
     chk.assumptions += [
         "get_bit(1 << bit) = bit (floating-point log2 on exact powers of two)",
         "uint32_t offset arithmetic of update_paddings is modelled in the integers (buffers < 4 GiB)",
-        "little-endian host; RadioTapParser::current_namespace_ is not observable through RadioTap and not modelled",
-        "the oracle treats headers that are not canonical single-namespace layouts, writes of a wrong size and "
-        "frames flagged FCS|FAILED_FCS (which libtins refuses to parse) as unspecified",
+        "little-endian host",
+        "well-aligned headers have zero padding bytes (decodeLayout); the oracle treats parsed headers that are not "
+        "well aligned, writes of a wrong size and frames flagged FCS|FAILED_FCS (which libtins refuses to parse) as "
+        "unspecified beyond the universal clauses (no fault, length_covers, reparse of the reported payload)",
+        "a later present word is a radiotap-namespace word (whose fields may be re-aligned) only when it is the second "
+        "of two words and the first has bit 29; bytes behind the first word's fields are foreign otherwise",
         "inner 802.11 frames are opaque bytes taken from a pool libtins round-trips byte for byte",
+        "current_option() is only called while a field is current (RADIOTAP_METADATA[MAX] is outside the table)",
     ]
     chk.trusted += ["correspondence harness harness/c11_radiotap.cpp + generators in checks/C11.py",
                     "translator/gen_radiotap.py (RADIOTAP_METADATA, PresentFlags, setter/getter field+width tables)",
                     "g++ 12 / ASan+UBSan build of the repo's working tree"]
     chk.extra["modelled_not_proved"] = [
-        "multi-namespace / vendor-namespace / truncated parsed headers: parser, setters and getters are modelled and "
-        "compared with the implementation, the theorems cover single-namespace canonical headers",
-        "serialize(): header bytes, length field, trailer size and the re-parse are modelled and checked by the "
-        "oracle; the FCS value is compared with an independent CRC-32 in the harness (C05 owns the CRC proof)"]
+        "parsed headers that are not well aligned (non-zero padding bytes, fields that do not fit, misaligned data): "
+        "the safety theorems (no fault, termination) and the any-payload serialization theorem cover them; what the "
+        "getters return after setters on them is compared with the implementation only",
+        "live frames (last present word with table bits) whose foreign bytes are not the well-aligned fields of the last "
+        "word, or whose first present word has no table field (libtins' parser then never enters the last word): the "
+        "bytes behind the first word's fields after an insertion are only shown to exist (re-padded by update_paddings), "
+        "their content is compared with the implementation",
+        "current_namespace() / namespace index: modelled (Checked.lean), compared and checked by the oracle against the "
+        "standard; no theorem beyond safety",
+        "serialize(): the FCS value is compared with an independent CRC-32 in the harness (C05 owns the CRC proof); "
+        "the inner 802.11 frame is an opaque length"]
     corr.finalize_cov(chk)
 
 
